@@ -33,6 +33,10 @@ pub struct FbCase {
     /// route: 0 same service, 1 a clone of it, 2 another service built from the same layer)
     #[serde(default)]
     pub more_calls: Vec<(u8, u8)>,
+    /// 0: every call of a cell runs alone; 1: the further calls are in flight together; 2: as 1 and
+    /// the first of them is dropped while its fallback is pending
+    #[serde(default)]
+    pub group_mode: u8,
 }
 
 fn default_backup_code() -> u32 {
@@ -51,8 +55,9 @@ fn case_strategy(_tier: Tier) -> BoxedStrategy<FbCase> {
         100u32..200,
         any::<bool>(),
         prop::collection::vec((0u8..3, 0u8..3), 0..=3),
+        prop_oneof![2 => Just(0u8), 1 => Just(1u8), 1 => Just(2u8)],
     )
-        .prop_map(|(req_id, req_key, req_tag, value_serial, code_a, code_b, lat, backup_code, handle_first, more_calls)| FbCase {
+        .prop_map(|(req_id, req_key, req_tag, value_serial, code_a, code_b, lat, backup_code, handle_first, more_calls, group_mode)| FbCase {
             req_id,
             req_key,
             req_tag,
@@ -63,6 +68,7 @@ fn case_strategy(_tier: Tier) -> BoxedStrategy<FbCase> {
             backup_code,
             handle_first,
             more_calls,
+            group_mode,
         })
         .boxed()
 }
@@ -108,7 +114,8 @@ async fn run_grid(case: &FbCase) -> (Vec<String>, usize, Vec<serde_json::Value>)
                     seq.push(((outcome + *shift as usize) % 3, *route));
                 }
                 let outcomes: Vec<usize> = seq.iter().map(|x| x.0).collect();
-                let inner = Scripted::new(log.clone(), 1, move |_, _, g| match outcomes[g.min(outcomes.len() - 1)] {
+                let base_id = case.req_id;
+                let inner = Scripted::new(log.clone(), 1, move |r, _, _| match outcomes[(r.id.wrapping_sub(base_id) as usize).min(outcomes.len() - 1)] {
                     0 => Step::ok(lat),
                     1 => Step::err(lat, code_a),
                     _ => Step::err(lat, code_b),
@@ -198,39 +205,106 @@ async fn run_grid(case: &FbCase) -> (Vec<String>, usize, Vec<serde_json::Value>)
                 }
                 let layer = b.build();
                 let mut svc = layer.layer(inner.clone());
-                for (j, &(outcome, route)) in seq.iter().enumerate() {
+                // groups of calls issued together: singletons, or (overlap modes) the first call alone
+                // and all further calls of the cell in flight at once
+                let groups: Vec<Vec<usize>> = if case.group_mode == 0 || seq.len() < 3 {
+                    (0..seq.len()).map(|j| vec![j]).collect()
+                } else {
+                    vec![vec![0], (1..seq.len()).collect()]
+                };
+                for group in &groups {
                 let log_from = log.len();
                 let inv_before = invoked.load(Ordering::SeqCst);
+                type Fut = std::pin::Pin<Box<dyn std::future::Future<Output = Result<Resp, FallbackError<SErr>>>>>;
+                let mut futs: Vec<Option<Fut>> = vec![];
+                let mut results: Vec<Option<Result<Resp, FallbackError<SErr>>>> = vec![];
+                let mut cancelled: Vec<bool> = vec![];
+                for (pos, &j) in group.iter().enumerate() {
+                    let route = seq[j].1;
+                    let req = Req {
+                        id: case.req_id.wrapping_add(j as u32),
+                        key: case.req_key,
+                        tag: case.req_tag,
+                    };
+                    let mut other;
+                    let target = match route {
+                        0 => &mut svc,
+                        1 => {
+                            other = svc.clone();
+                            &mut other
+                        }
+                        _ => {
+                            other = layer.layer(inner.clone());
+                            &mut other
+                        }
+                    };
+                    let _ = futures::future::poll_fn(|cx| target.poll_ready(cx)).await;
+                    futs.push(Some(Box::pin(target.call(req))));
+                    results.push(None);
+                    // mode 2: the first call of an overlapping group is dropped once its inner call is over
+                    cancelled.push(case.group_mode == 2 && group.len() > 1 && pos == 0);
+                }
+                // drive with the virtual clock
+                let mut rounds = 0u32;
+                loop {
+                    for k in 0..futs.len() {
+                        let Some(f) = futs[k].as_mut() else { continue };
+                        if let std::task::Poll::Ready(r) = futures::poll!(f.as_mut()) {
+                            results[k] = Some(r);
+                            futs[k] = None;
+                        } else if cancelled[k] {
+                            let id = case.req_id.wrapping_add(group[k] as u32);
+                            let inner_over = log.with(|l| {
+                                let serial = l.iter().find_map(|e| match e {
+                                    Ev::Enter { serial, req, .. } if req.id == id && *serial < BACKUP_BASE => Some(*serial),
+                                    _ => None,
+                                });
+                                serial.map_or(false, |s| l.iter().any(|e| matches!(e, Ev::Done { serial: d, .. } if *d == s)))
+                            });
+                            if inner_over {
+                                futs[k] = None; // dropped while its fallback is pending
+                            }
+                        }
+                    }
+                    if futs.iter().all(|f| f.is_none()) {
+                        break;
+                    }
+                    rounds += 1;
+                    if rounds > 200 {
+                        violations.push(format!(
+                            "strategy {} / predicate {}: calls {:?} of the cell did not resolve within 200 ms",
+                            STRATEGIES[strat], PREDICATES[pred], group
+                        ));
+                        break;
+                    }
+                    crate::vclock::advance_ms(1);
+                    tokio::task::yield_now().await;
+                }
+                let group_snap: Vec<Ev> = log.snapshot().split_off(log_from);
+                let group_inv = invoked.load(Ordering::SeqCst) - inv_before;
+                let solo = group.len() == 1;
+                let mut handled_done = 0u64;
+                let mut handled_all = 0u64;
+                for (pos, &j) in group.iter().enumerate() {
+                let (outcome, route) = seq[j];
                 let req = Req {
                     id: case.req_id.wrapping_add(j as u32),
                     key: case.req_key,
                     tag: case.req_tag,
                 };
-                let mut other;
-                let target = match route {
-                    0 => &mut svc,
-                    1 => {
-                        other = svc.clone();
-                        &mut other
+                let Some(result) = results[pos].take() else {
+                    // cancelled (or reported above as unresolved): only its side effects count
+                    let code = match outcome { 1 => case.code_a, 2 => case.code_b, _ => 0 };
+                    if outcome != 0 && match pred { 0 | 1 => true, 2 => false, _ => code % 2 == 1 } && strat != 0 {
+                        handled_all += 1;
                     }
-                    _ => {
-                        other = layer.layer(inner.clone());
-                        &mut other
-                    }
+                    continue;
                 };
-                let _ = futures::future::poll_fn(|cx| target.poll_ready(cx)).await;
-                let fut = target.call(req.clone());
-                // drive with the virtual clock
-                let mut fut = Box::pin(fut);
-                let result = loop {
-                    let polled = futures::poll!(fut.as_mut());
-                    if let std::task::Poll::Ready(r) = polled {
-                        break r;
-                    }
-                    crate::vclock::advance_ms(1);
-                    tokio::task::yield_now().await;
-                };
-                let snap: Vec<Ev> = log.snapshot().split_off(log_from);
+                let snap: Vec<Ev> = group_snap
+                    .iter()
+                    .filter(|e| matches!(e, Ev::Enter { req: r, .. } if r.id == req.id))
+                    .cloned()
+                    .collect();
                 let inner_enters: Vec<(u64, Req)> = snap
                     .iter()
                     .filter_map(|e| match e {
@@ -279,10 +353,10 @@ async fn run_grid(case: &FbCase) -> (Vec<String>, usize, Vec<serde_json::Value>)
                         2 => false,
                         _ => code % 2 == 1,
                     };
-                let n_inv = invoked.load(Ordering::SeqCst) - inv_before;
+                let n_inv = if solo { group_inv } else { u64::MAX };
                 let describe = |r: &Result<Resp, FallbackError<SErr>>| format!("{r:?}");
                 if !handled {
-                    if n_inv != 0 || !backup_enters.is_empty() {
+                    if (solo && n_inv != 0) || !backup_enters.is_empty() {
                         violations.push(format!(
                             "{cell}: the fallback strategy was invoked although the {} must pass through",
                             if outcome == 0 { "success" } else { "refused error" }
@@ -301,14 +375,23 @@ async fn run_grid(case: &FbCase) -> (Vec<String>, usize, Vec<serde_json::Value>)
                     }
                 } else {
                     let expected_inv = if strat == 0 { 0 } else { 1 };
-                    if n_inv != expected_inv {
+                    if strat != 0 {
+                        handled_done += 1;
+                        handled_all += 1;
+                    }
+                    if solo && n_inv != expected_inv {
                         violations.push(format!(
                             "{cell}: strategy closure invoked {n_inv} times, expected {expected_inv}"
                         ));
                     }
                     let ok = match (strat, &result) {
                         (0, Ok(r)) => *r == value,
-                        (1, Ok(r)) => r.serial == VF_BASE + inv_before && r.req == zero_req(),
+                        (1, Ok(r)) => {
+                            r.serial >= VF_BASE + inv_before
+                                && r.serial < VF_BASE + inv_before + group.len() as u64
+                                && (!solo || r.serial == VF_BASE + inv_before)
+                                && r.req == zero_req()
+                        }
                         (2, Ok(r)) => r.serial == FE_BASE + code as u64 * 1000 + inner_serial && r.req == zero_req(),
                         (3, Ok(r)) => r.serial == FRE_BASE + code as u64 * 1000 + inner_serial && r.req == req,
                         (4, Ok(r)) => {
@@ -340,6 +423,15 @@ async fn run_grid(case: &FbCase) -> (Vec<String>, usize, Vec<serde_json::Value>)
                 }
                 if samples.len() < 3 && handled {
                     samples.push(json!({"cell": cell, "result": describe(&result)}));
+                }
+                }
+                // strategy invocations of an overlapping group: one per handled call (a cancelled
+                // call may or may not have got that far)
+                if !solo && (group_inv < handled_done || group_inv > handled_all) {
+                    violations.push(format!(
+                        "strategy {} / predicate {}: {} overlapping calls of which {}..={} had to invoke the strategy, but it was invoked {} times",
+                        STRATEGIES[strat], PREDICATES[pred], group.len(), handled_done, handled_all, group_inv
+                    ));
                 }
                 }
             }
@@ -377,11 +469,17 @@ impl Property for C17 {
         if case.more_calls.iter().any(|c| c.1 == 2) {
             r.class("second_service_of_the_layer");
         }
+        if case.group_mode >= 1 && case.more_calls.len() >= 2 {
+            r.class("overlapping_calls");
+            if case.group_mode == 2 {
+                r.class("call_dropped_while_fallback_pending");
+            }
+        }
         r.trace = json!({"cells_enumerated": cells, "handled_error_samples": samples});
         r
     }
     fn rule(&self) -> String {
-        "every generated case (request id/key/tag, value payload, two inner error codes and a backup error code of either parity, inner latency 0-2 ms) enumerates the complete grid {value, value_fn, from_error, from_request_error, backup service ok, backup service failing, exception} x {no predicate, accept all, refuse all, accept odd codes} x {inner ok, error a, error b} = 84 cells (exhaustive for the finite part); each cell's layer then takes 0-3 further generated calls (other outcomes) through the same service, a clone or a second service built from the same layer, so that per-invocation strategies (value_fn counter) are exercised repeatedly. Oracle: pure reference function: success or refused error => inner result unchanged (serial/code identity) and no strategy or backup invocation; handled error => exactly the strategy's value for this request and this error (value identity, error encoded in the response, request echoed, backup entered once with this request, FallbackFailed carrying the backup's error, transformed error); inner service entered exactly once with the identical request. Non-trivial: every case contains all handled-error cells; distinct by hash of the payloads".into()
+        "every generated case (request id/key/tag, value payload, two inner error codes and a backup error code of either parity, inner latency 0-2 ms) enumerates the complete grid {value, value_fn, from_error, from_request_error, backup service ok, backup service failing, exception} x {no predicate, accept all, refuse all, accept odd codes} x {inner ok, error a, error b} = 84 cells (exhaustive for the finite part); each cell's layer then takes 0-3 further generated calls (other outcomes) through the same service, a clone or a second service built from the same layer, so that per-invocation strategies (value_fn counter) are exercised repeatedly; in two of four cases those further calls are in flight together, and in one of four the first of them is dropped while its fallback is pending. Oracle: pure reference function: success or refused error => inner result unchanged (serial/code identity) and no strategy or backup invocation; handled error => exactly the strategy's value for this request and this error (value identity, error encoded in the response, request echoed, backup entered once with this request, FallbackFailed carrying the backup's error, transformed error); inner service entered exactly once with the identical request. Non-trivial: every case contains all handled-error cells; distinct by hash of the payloads".into()
     }
     fn assumptions(&self) -> Vec<String> {
         vec!["one request per grid cell; payloads are drawn, the grid is enumerated".into()]
